@@ -27,6 +27,35 @@ type lcPlan struct {
 	extra   int // number of failing responses when k == 0
 	fbOK    bool
 	postAct int // >= 0 action, -1 error
+	pay     int // payload kind of the values prep / exec / fallback return (see payload)
+}
+
+// payload kinds: 0 opaque token, 1 nil, 2 a non-error Result holding a token, 3 a Result
+// holding a Result, 4 typed nil pointer, 5 typed nil map, 6 slice of tokens, 7 int, 8 error Result
+const nPayloads = 9
+
+func (b *sb) payload(kind int) Val {
+	switch kind {
+	case 1:
+		return vNil()
+	case 2:
+		return vRes(b.tok())
+	case 3:
+		return vRes(vRes(b.tok()))
+	case 4:
+		return vOther("nilptr")
+	case 5:
+		return vOther("nilmap")
+	case 6:
+		return vSl(false, "toks", []Val{b.tok(), b.tok()})
+	case 7:
+		t := b.tok()
+		t.Shape = "int"
+		return t
+	case 8:
+		return vErrRes(b.errID())
+	}
+	return b.tok()
 }
 
 func (b *sb) lifecycle(x int, d NodeDef, p lcPlan) {
@@ -34,7 +63,11 @@ func (b *sb) lifecycle(x int, d NodeDef, p lcPlan) {
 		if p.prepErr {
 			b.script(x, "prep", 0, []Resp{rErr(b.errID())}, rErr(b.errID()))
 		} else {
-			b.script(x, "prep", 0, []Resp{rOk(b.tok())}, rOk(b.tok()))
+			pk := p.pay
+			if pk == 8 {
+				pk = 0 // an error Result as prep value is not a payload the engine passes on (Value() is nil)
+			}
+			b.script(x, "prep", 0, []Resp{rOk(b.payload(pk))}, rOk(b.tok()))
 		}
 	}
 	if d.Exec != "absent" {
@@ -43,7 +76,7 @@ func (b *sb) lifecycle(x int, d NodeDef, p lcPlan) {
 			for i := 1; i < p.k; i++ {
 				rs = append(rs, rErr(b.errID()))
 			}
-			rs = append(rs, rOk(b.tok()))
+			rs = append(rs, rOk(b.payload(p.pay)))
 			b.script(x, "exec", 0, rs, rOk(b.tok()))
 		} else {
 			for i := 0; i < p.extra; i++ {
@@ -54,7 +87,7 @@ func (b *sb) lifecycle(x int, d NodeDef, p lcPlan) {
 	}
 	if d.Fb == "user" {
 		if p.fbOK {
-			b.script(x, "fb", 0, []Resp{rOk(b.tok())}, rOk(b.tok()))
+			b.script(x, "fb", 0, []Resp{rOk(b.payload(p.pay))}, rOk(b.tok()))
 		} else {
 			b.script(x, "fb", 0, []Resp{rErr(b.errID())}, rErr(b.errID()))
 		}
@@ -110,6 +143,13 @@ func genC01(r *rng, tier string, st *stats) []taggedScen {
 			} else {
 				plans = append(plans, lcPlan{k: 0, extra: budget + 1, postAct: 5})
 			}
+			// payload kinds on the success path and on the fallback path
+			for pay := 1; pay < nPayloads; pay++ {
+				plans = append(plans, lcPlan{k: 1, postAct: 5, pay: pay})
+				if k.Fb == "user" {
+					plans = append(plans, lcPlan{k: 0, extra: budget + 1, fbOK: true, postAct: 5, pay: pay})
+				}
+			}
 			for _, p := range plans {
 				if k.Exec == "absent" && (p.k != 1) {
 					continue
@@ -124,7 +164,7 @@ func genC01(r *rng, tier string, st *stats) []taggedScen {
 					b := newSB()
 					x := b.add(k)
 					b.lifecycle(x, k, p)
-					tags := []string{"kind=" + k.Impl, fmt.Sprintf("N=%d", budget), fmt.Sprintf("first_ok=%d", p.k)}
+					tags := []string{"kind=" + k.Impl, fmt.Sprintf("N=%d", budget), fmt.Sprintf("first_ok=%d", p.k), fmt.Sprintf("payload=%d", p.pay)}
 					if p.prepErr {
 						tags = append(tags, "prep_err")
 					}
@@ -146,6 +186,7 @@ func genC01(r *rng, tier string, st *stats) []taggedScen {
 			out = append(out, randFlowScen(r, 3, "C01", false))
 		}
 	}
+	out = append(out, commonPool(r, tier, "C01")...)
 	st.Exhaustive = true
 	st.Scope = fmt.Sprintf("all node kinds x N in 1..%d x prep {ok,err} x first success at attempt 1..N or never x fallback {none,default,user ok,user err} x post {custom,default,empty,err}; alone and as first step of a flow", maxN)
 	st.Rule = "enumeration; non-trivial when a retry, a prep error, a fallback or a non-custom post result is involved; distinct by scenario hash"
@@ -218,6 +259,7 @@ func genC02(r *rng, tier string, st *stats) []taggedScen {
 			}
 		}
 	}
+	out = append(out, commonPool(r, tier, "C02")...)
 	st.Exhaustive = true
 	st.Scope = fmt.Sprintf("N in 1..%d x every exec outcome vector in {ok,fail}^(N+1) x fallback {none,default,user ok,user err} x 8 node kinds (struct, retry-only, fallback-only, function style in 3 mixes)", maxN)
 	st.Rule = "enumeration; non-trivial when the first attempt does not succeed; distinct by scenario hash"
@@ -503,6 +545,7 @@ func genC04(r *rng, tier string, st *stats) []taggedScen {
 		base := taggedScen{sc: b.sc, tags: []string{"kind=" + k.Impl, "single"}}
 		out = append(out, injectAll(base, inj, "fail", 0, r)...)
 	}
+	out = append(out, commonPool(r, tier, "C04")...)
 	st.Scope = fmt.Sprintf("%d random flows (depth <= 3, nested, cyclic, with batch and partial nodes) + every node kind alone; one failure injected at every callback of the fault-free path", nflows)
 	st.Rule = "fault-free run first, then one scenario per callback position with that callback returning a user error (3 flavours: sentinel, %w-wrapped, custom type); all injected scenarios are non-trivial; distinct by scenario hash"
 	st.Extra["nontrivial_floor"] = nflows
@@ -547,8 +590,74 @@ func genC05(r *rng, tier string, st *stats) []taggedScen {
 			}
 		}
 	}
+	out = append(out, commonPool(r, tier, "C05")...)
 	st.Scope = fmt.Sprintf("%d random flows + every node kind alone (N in 1..3, first/last/no attempt succeeding); cancellation before the run and from inside every callback of the fault-free path; cancel and deadline contexts", nflows)
 	st.Rule = "fault-free run first, then one scenario per callback position with that callback cancelling the context; all are non-trivial; distinct by scenario hash"
 	st.Extra["nontrivial_floor"] = nflows
+	return out
+}
+
+// ---------------------------------------------------------------- the common pool
+
+// commonPool: scenarios every engine-family check runs besides its own enumeration, so that a
+// change which needs two dimensions at once (a payload kind on the fallback path, a cancel
+// inside a succeeding attempt, an empty action after a recovered failure ...) meets each
+// property's predicate.  Every spec_Cxx is proved of the model for every scenario, so sharing
+// scenarios between properties cannot raise a false alarm.
+func commonPool(r *rng, tier, tag string) []taggedScen {
+	var out []taggedScen
+	nsingle, nflows := 1, 25
+	if tier == "thorough" {
+		nsingle, nflows = 3, 300
+	}
+	posts := []int{5, 1, 0, -1}
+	for rep := 0; rep < nsingle; rep++ {
+		for N := 1; N <= 3; N++ {
+			for _, k := range userKinds(N, 0, false) {
+				if !hasRetry(k) && N > 1 {
+					continue
+				}
+				budget := 1
+				if hasRetry(k) {
+					budget = N
+				}
+				// one random plan per kind and budget
+				p := lcPlan{k: 1 + r.intn(budget), postAct: pick(r, posts), pay: r.intn(nPayloads)}
+				if r.chance(35) {
+					p.k, p.extra, p.fbOK = 0, budget+1, r.chance(70)
+				}
+				if k.Exec == "absent" {
+					p.k = 1
+				}
+				if k.Post == "absent" {
+					p.postAct = 5
+				}
+				b := newSB()
+				x := b.add(k)
+				b.lifecycle(x, k, p)
+				b.sc.Root = x
+				if r.chance(40) {
+					y := b.marker()
+					z := b.marker()
+					b.sc.Root = b.flow(x, [][]int{{x, 1, y}, {x, 5, z}})
+				}
+				base := taggedScen{sc: b.sc, tags: []string{"pool", "kind=" + k.Impl}, nontrivial: true}
+				out = append(out, base)
+				// the same scenario with the context cancelled from inside one of its callbacks,
+				// and with one of its callbacks failing
+				canc := injectAll(base, func(old Resp, h *sb) Resp { old.Cancel = true; return old }, "cancel", 2, r)
+				fail := injectAll(base, func(old Resp, h *sb) Resp { return rErr(h.errID()) }, "fail", 2, r)
+				out = append(out, canc...)
+				out = append(out, fail...)
+			}
+		}
+	}
+	for i := 0; i < nflows; i++ {
+		base := randFlowScen(r, 3, tag, i%3 != 0)
+		base.tags = append(base.tags, "pool")
+		out = append(out, base)
+		out = append(out, injectAll(base, func(old Resp, h *sb) Resp { old.Cancel = true; return old }, "cancel", 3, r)...)
+		out = append(out, injectAll(base, func(old Resp, h *sb) Resp { return rErr(h.errID()) }, "fail", 3, r)...)
+	}
 	return out
 }
